@@ -69,7 +69,7 @@ fn vq_c09_timestamp_add_table() {
     kani::cover!(true, "reach:end");
 }
 
-//@ harness props=C09 tier=thorough level=bounded timeout=3000 bound="timestamp < 2^32 us (71 min), duration < 4 s (ns resolution)"
+//@ harness props=C09 tier=thorough level=bounded timeout=1800 bound="timestamp < 2^24 us (16 s), duration < 4 s (ns resolution)"
 //@ fn Timestamp::add
 #[kani::proof]
 #[kani::unwind(3)]
@@ -78,7 +78,7 @@ fn vq_c09_timestamp_add_contract() {
     let us: u32 = kani::any();
     let s: u8 = kani::any();
     let n: u32 = kani::any();
-    kani::assume(us > 0 && s <= 3 && n < 1_000_000_000);
+    kani::assume(us > 0 && us < 1 << 24 && s <= 3 && n < 1_000_000_000);
     let t = Timestamp::verif_from_micros(us as u64);
     let d = Duration::new(s as u64, n);
     assert!(t + d == t.verif_add_model(d), "C09/timestamp.add/equals_microsecond_model");
